@@ -418,7 +418,7 @@ Section Queue.
   Definition step (s : sys) (e : event) : option sys :=
     match e with
     | EvSubmit prio sizes =>
-        if q_done (s_q s) then None
+        if q_done (s_q s) || (u128_max <? prio) then None      (* priority is a u128 *)
         else
           let id := s_next s in
           let q' := fold_left (fun q sz => q_push q (mk_task prio sz id)) sizes (s_q s) in
@@ -513,3 +513,100 @@ Definition chk_encio (i : (N * N * N) * (N * N * N) * list range) (o : outcome (
 (* the harness evaluates the class predicate in Rust; it must be the predicate of the theorem *)
 Definition chk_class (i : (N * N) * list range) (o : bool) : bool :=
   let '((bs, mx), rs) := i in Bool.eqb (Known_C30_request_shape bs mx rs) o.
+
+(* ------------------------------------------------------------------------------------------ *)
+(* 9. Scripted queue correspondence: the harness drives the real ScanScheduler over a gated    *)
+(*    store; after every action the I/O loop runs to quiescence (deliver while possible).      *)
+(* ------------------------------------------------------------------------------------------ *)
+Inductive qev :=
+| QSubmit (prio : N) (rs : list range)   (* FileScheduler::submit_request(rs, prio), future kept un-polled *)
+| QComplete (batch size : N)             (* the gate releases a held read of that batch and size *)
+| QConsume (batch : N)                   (* poll the future of that batch once *)
+| QClose.                                (* drop every handle of the scheduler *)
+
+(* observation: the reads held at the gate as (batch, size), sorted; and for QConsume the poll
+   result 0 = Pending, 1 = Ready(Ok), 2 = Ready(Err); 3 for the other events *)
+Definition qobs := (list (N * N) * N)%type.
+
+Fixpoint saturate (fuel : nat) (s : sys) : sys :=
+  match fuel with
+  | O => s
+  | S fuel' => match step pick_leftmost s EvDeliver with Some s' => saturate fuel' s' | None => s end
+  end.
+Definition settle (s : sys) : sys := saturate (S (length (q_pending (s_q s)))) s.
+
+Fixpoint find_idx {A} (p : A -> bool) (l : list A) : option nat :=
+  match l with
+  | [] => None
+  | x :: l' => if p x then Some O else option_map S (find_idx p l')
+  end.
+
+Definition nn_leb (x y : N * N) : bool := (fst x <? fst y) || ((fst x =? fst y) && (snd x <=? snd y)).
+Fixpoint nn_insert (x : N * N) (l : list (N * N)) : list (N * N) :=
+  match l with [] => [x] | y :: l' => if nn_leb x y then x :: l else y :: nn_insert x l' end.
+Definition running_obs (s : sys) : list (N * N) :=
+  fold_right nn_insert [] (map (fun t => (t_batch t, t_bytes t)) (s_running s)).
+
+(* one scripted action; None = the script is not executable on the model (a disagreement) *)
+Definition qstep (bs mx : N) (s : sys) (e : qev) : option (sys * qobs) :=
+  match e with
+  | QSubmit prio rs =>
+      match updated_requests bs mx rs with
+      | Ok us =>
+          match step pick_leftmost s (EvSubmit prio (map (fun u => snd u - fst u) us)) with
+          | Some s1 => let s2 := settle s1 in Some (s2, (running_obs s2, 3))
+          | None => None
+          end
+      | _ => None
+      end
+  | QComplete b sz =>
+      match find_idx (fun t => (t_batch t =? b) && (t_bytes t =? sz)) (s_running s) with
+      | Some k =>
+          match step pick_leftmost s (EvComplete k) with
+          | Some s1 => let s2 := settle s1 in Some (s2, (running_obs s2, 3))
+          | None => None
+          end
+      | None => None
+      end
+  | QConsume b =>
+      match find_idx (fun x => b_id x =? b) (s_batches s) with
+      | Some k =>
+          match nth_error (s_batches s) k with
+          | Some x =>
+              if b_finished x then
+                match step pick_leftmost s (EvConsume k) with
+                | Some s1 => let s2 := settle s1 in Some (s2, (running_obs s2, if b_err x then 2 else 1))
+                | None => None
+                end
+              else Some (s, (running_obs s, 0))
+          | None => None
+          end
+      | None => None
+      end
+  | QClose =>
+      match step pick_leftmost s EvClose with
+      | Some s1 => let s2 := settle s1 in Some (s2, (running_obs s2, 3))
+      | None => None
+      end
+  end.
+
+Fixpoint qrun (bs mx : N) (s : sys) (es : list qev) : option (list qobs) :=
+  match es with
+  | [] => Some []
+  | e :: es' =>
+      match qstep bs mx s e with
+      | Some (s', o) => match qrun bs mx s' es' with Some os => Some (o :: os) | None => None end
+      | None => None
+      end
+  end.
+
+Definition qobs_eqb (x y : qobs) : bool :=
+  list_eqb (fun a b => (fst a =? fst b) && (snd a =? snd b)) (fst x) (fst y) && (snd x =? snd y).
+
+(* input: ((io_capacity, io_buffer_size), (block size, max iop size), script) *)
+Definition chk_queue (i : (N * N) * (N * N) * list qev) (o : list qobs) : bool :=
+  let '((cap, buf), (bs, mx), es) := i in
+  match qrun bs mx (sys_new cap buf) es with
+  | Some os => list_eqb qobs_eqb os o
+  | None => false
+  end.
